@@ -94,6 +94,11 @@ def snippets(r):
                      '<xsl:apply-templates select="//item" mode="srt"><xsl:sort select="." case-order="upper-first"/></xsl:apply-templates></sorted>' % (order, lang, dtype))
     S["id"] = ('', '<ids><xsl:for-each select="//item"><r t="{count(id(@ref))}" g="{generate-id(id(@ref)[1]) = generate-id(.)}"/></xsl:for-each>'
                    '<xsl:value-of select="count(id(\'a0_0 a1_1 nope\'))"/><u><xsl:value-of select="unparsed-entity-uri(/doc/@pic)"/></u></ids>')
+    # id() results put into document order / compared by identity (on Xerces-backed sources: getElementById -> mapNode -> wrapper node)
+    S["idorder"] = ('', '<io><xsl:for-each select="id(\'p0_1 p0_0 a0_1 a0_0\')|//item[2]"><xsl:value-of select="@id"/>,</xsl:for-each>'
+                        '<xsl:value-of select="count(id(//item/@ref)/following::item)"/>;<xsl:value-of select="count(id(//item/@ref)/preceding::*)"/>;'
+                        '<xsl:value-of select="generate-id(id(\'p0_0\')) = generate-id(//item[@id=\'p0_0\'])"/>;'
+                        '<xsl:for-each select="//item"><xsl:if test="count(id(@ref)|.) = 1">s</xsl:if></xsl:for-each></io>')
     S["vars"] = ('<xsl:variable name="top" select="count(//item)"/>\n<xsl:param name="par" select="\'p\'"/>\n<xsl:variable name="rtf"><a><b>1</b><b>2</b></a></xsl:variable>',
                  '<vars t="{$top}" p="{$par}"><xsl:copy-of select="$rtf"/><xsl:variable name="loc"><xsl:for-each select="//item"><q><xsl:value-of select="@n"/></q></xsl:for-each></xsl:variable>'
                  '<xsl:value-of select="string-length($loc)"/><xsl:call-template name="rec"><xsl:with-param name="n" select="5"/></xsl:call-template></vars>')
@@ -157,7 +162,7 @@ def stylesheet(r, names):
 
 
 FACILITIES = ["keys", "keydoc", "number", "numberfrom", "document", "format", "formatnodecl", "sort", "id", "vars", "import",
-              "attrsets", "message", "misc", "exslt", "copyof", "missingdoc", "applyimports", "outputcdata", "nomode", "applyattrs", "extfn", "extglob"]
+              "attrsets", "message", "misc", "exslt", "copyof", "missingdoc", "applyimports", "outputcdata", "nomode", "applyattrs", "extfn", "extglob", "idorder"]
 
 
 # these end the transformation with a reported error (the error path and its message are compared too)
